@@ -17,7 +17,7 @@
        (let ((j (I.bpf.Instruction.unbox.bpf.JumpIf i)))
          (run p (+ pc 1 (ite (jtest (bpf.JumpIf.Cond j) A (bpf.JumpIf.Val j)) (bpf.JumpIf.SkipTrue j) (bpf.JumpIf.SkipFalse j))) A))
   (ite ((_ is I.bpf.Instruction.box.bpf.Jump) i)
-       (run p (+ pc 1 (bv2nat (bpf.Jump.Skip (I.bpf.Instruction.unbox.bpf.Jump i)))) A)
+       (run p (+ pc 1 (w2i32 (bpf.Jump.Skip (I.bpf.Instruction.unbox.bpf.Jump i)))) A)
        Stuck))))))))
 ; structural predicates (kernel verifier clauses and composition)
 (define-fun insnOK ((p Slice<I.bpf.Instruction>) (pc Int)) Bool
@@ -31,7 +31,7 @@
                     (<= 0 (bpf.JumpIf.SkipFalse j)) (<= (bpf.JumpIf.SkipFalse j) 255)
                     (<= (+ pc 1 (bpf.JumpIf.SkipTrue j)) (plen p)) (<= (+ pc 1 (bpf.JumpIf.SkipFalse j)) (plen p)))))
         (and ((_ is I.bpf.Instruction.box.bpf.Jump) i)
-             (<= (+ pc 1 (bv2nat (bpf.Jump.Skip (I.bpf.Instruction.unbox.bpf.Jump i)))) (plen p))))))
+             (<= (+ pc 1 (w2i32 (bpf.Jump.Skip (I.bpf.Instruction.unbox.bpf.Jump i)))) (plen p))))))
 ; closed: only permitted instruction kinds, every jump lands inside [0, len] (len itself = falls off the end)
 (define-fun closed ((p Slice<I.bpf.Instruction>)) Bool
   (forall ((pc Int)) (! (=> (and (<= 0 pc) (< pc (plen p))) (insnOK p pc)) :pattern ((insnAt p pc)))))
